@@ -407,7 +407,7 @@ func (g *Gen) Step() {
 		prov := pick(g.R, []string{"stub", "other"})
 		g.OIdx++
 		code := fmt.Sprintf("code%d", g.OIdx)
-		uid := pick(g.R, []string{"u1", "u2", "u;3", "u;;4", "ü5"})
+		uid := pick(g.R, []string{"u1", "u2", "u;3", "u;;4", "u;4", "u;;3", "ü5"})
 		if g.R.Intn(6) != 0 {
 			m.W.OAuth[code] = map[string]string{"uid": uid}
 		}
@@ -418,7 +418,19 @@ func (g *Gen) Step() {
 		case x < 8:
 			args.State = m.W.B(g.b()).Sess["oauth2_state"]
 		case x < 9:
-			args.State = "forged"
+			st := m.W.B(b).Sess["oauth2_state"]
+			switch g.R.Intn(4) {
+			case 0:
+				args.State = "forged"
+			case 1:
+				if len(st) > 4 {
+					args.State = st[:len(st)/2] // a prefix of the right value
+				}
+			case 2:
+				args.State = st + "x"
+			default:
+				args.State = "" // absent
+			}
 		}
 		if g.R.Intn(8) == 0 {
 			args.OErr = "access_denied"
@@ -518,7 +530,14 @@ func (g *Gen) Step() {
 	case "open", "lockmw", "confirmmw", "rootmw":
 		r = m.HTTP(b, kind, Args{}, nil)
 	case "adv":
-		m.Advance(gaps[g.R.Intn(len(gaps))])
+		if g.R.Intn(3) == 0 {
+			// gaps placed on the configured thresholds
+			E, W, D := m.Cfg.ExpireAfter, m.Cfg.LockWindow, m.Cfg.LockDuration
+			th := []time.Duration{E - 1, E - 500*time.Millisecond, E - 1500*time.Millisecond, E, E + 1, E/2 - time.Second, W - 1, W, W + 1, D - 1, D, D + 1, m.Cfg.RecoverDuration, m.Cfg.RecoverDuration + 1}
+			m.Advance(th[g.R.Intn(len(th))])
+		} else {
+			m.Advance(gaps[g.R.Intn(len(gaps))])
+		}
 	case "apilock":
 		if m.W.Store.Users[a.PID] != nil && m.Cfg.Has("lock") {
 			m.APILock(a.PID)
